@@ -26,6 +26,24 @@ def _toggle_ok(st, tier, every):
     return st.explored and st.depth % 2 == 0 or st.depth % every == 0
 
 
+def _since_toggle(st):
+    """number of run-like actions since the last toggle on the path (None: no toggle yet)"""
+    n = None
+    for a in st.path:
+        if a[0] == 'toggle':
+            n = 0
+        elif n is not None and a[0] != 'resume':
+            n += 1
+    return n
+
+
+def _horizon(tier):
+    """after a toggle a path is followed for this many more batches only: the C02/C03/C12 oracles
+    are evaluated per transition, and toggled paths legitimately end with different results, so
+    nothing is gained by running each of them to termination"""
+    return 4 if tier == 'quick' else 8
+
+
 def _terminal_raise(st):
     """at a terminal state whose targets are still the scenario's: raise the n_eff target above what
     has been reached (x1.25)"""
@@ -46,13 +64,19 @@ def _loops_C11(st):
 # variants: every (scenario, variant) pair is one exploration job with its own sub-alphabet - all of
 # them start from the initial state, so the union of the explored histories is what is reported.
 VARIANTS = dict(
-    C01=dict(quick=['resume'], thorough=['resume2']),
-    C02=dict(quick=['resume', 'toggle'], thorough=['resume', 'toggle2']),
-    C03=dict(quick=['resume', 'toggle'], thorough=['resume2', 'toggle']),
-    C05=dict(quick=['resume', 'slices'], thorough=['resume2', 'slices', 'mixed']),
+    C01=dict(quick=['resume', 'nshell'], thorough=['resume2', 'nshell']),
+    C02=dict(quick=['resume/0/2', 'resume/1/2', 'toggle/0/2', 'toggle/1/2', 'nshell'],
+             thorough=['resume', 'toggle2/0/3', 'toggle2/1/3', 'toggle2/2/3', 'nshell']),
+    C03=dict(quick=['resume', 'toggle/0/2', 'toggle/1/2'],
+             thorough=['resume2', 'toggle/0/2', 'toggle/1/2']),
+    C05=dict(quick=['resume/0/2', 'resume/1/2', 'slices'],
+             thorough=['resume2/0/3', 'resume2/1/3', 'resume2/2/3', 'slices', 'mixed/0/2',
+                       'mixed/1/2']),
     C10=dict(quick=['slices', 'resume', 'raise'], thorough=['slices', 'resume', 'raise', 'finish']),
     C11=dict(quick=['observe'], thorough=['observe']),
-    C12=dict(quick=['toggle-resume', 'toggle2'], thorough=['toggle-resume', 'toggle3', 'raise']),
+    C12=dict(quick=['toggle-resume/0/2', 'toggle-resume/1/2', 'toggle2/0/2', 'toggle2/1/2', 'nshell'],
+             thorough=['toggle-resume/0/2', 'toggle-resume/1/2', 'toggle3/0/3', 'toggle3/1/3',
+                       'toggle3/2/3', 'raise', 'nshell']),
 )
 
 
@@ -67,6 +91,13 @@ def config(prop, tier, scn, variant):
         'C12': [M.mon_exception('C12'), M.mon_freeze, M.mon_toggle, M.mon_resume_obs('C12')],
     }[prop]
     cfg = dict(monitors=mons, R=0, T=0, S=0)
+    # 'name/k/n' = the variant `name` with its deviating actions (resume, toggle, finish, sched)
+    # allowed only at depths d with d % n == k: splits one exploration into n jobs whose union covers
+    # the same deviations at every depth
+    shard = None
+    if '/' in variant:
+        variant, k_, n_ = variant.split('/')
+        shard = (int(k_), int(n_))
     if variant == 'resume':
         cfg.update(alphabet=_alpha(('step',), ('resume',)), R=1)
         if prop == 'C05':
@@ -83,6 +114,9 @@ def config(prop, tier, scn, variant):
         cfg.update(alphabet=_alpha(('step',), ('resume',)), R=2)
     elif variant in ('toggle', 'toggle2'):
         def alphabet(st):
+            since = _since_toggle(st)
+            if since is not None and since >= _horizon(tier):
+                return []
             acts = [('step',), ('resume',)]
             if _toggle_ok(st, tier, 5):
                 acts.append(('toggle',))
@@ -122,6 +156,13 @@ def config(prop, tier, scn, variant):
                     acts += [('resume',), ('run2',)]
                 return acts
             cfg.update(alphabet=alphabet, R=1)
+    elif variant == 'nshell':
+        def terminal_alphabet(st):
+            if not any(a[0] == 'runto' for a in st.path):
+                n_eff, n_shell = st.target
+                return [('runto', n_eff, 200), ('runto', int(max(n_eff, st.n_eff) * 1.5), 40)]
+            return [('resume',)] if st.path[-1][0] == 'runto' else []
+        cfg.update(alphabet=_alpha(('step',)), terminal_alphabet=terminal_alphabet, R=1)
     elif variant == 'observe':
         def alphabet(st):
             acts = [('step',)]
@@ -133,6 +174,9 @@ def config(prop, tier, scn, variant):
         cfg.update(alphabet=alphabet, loops=_loops_C11, S=1 if tier == 'quick' else 2)
     elif variant == 'toggle-resume':
         def alphabet(st):
+            since = _since_toggle(st)
+            if since is not None and since >= _horizon(tier):
+                return []
             acts = [('step',), ('resume',)]
             if _toggle_ok(st, tier, 4):
                 acts.append(('toggle',))
@@ -140,6 +184,9 @@ def config(prop, tier, scn, variant):
         cfg.update(alphabet=alphabet, R=1, T=1)
     elif variant in ('toggle2', 'toggle3'):
         def alphabet(st):
+            since = _since_toggle(st)
+            if since is not None and since >= _horizon(tier):
+                return []
             acts = [('step',)]
             if st.explored or tier == 'thorough' and st.depth % 3 == 0:
                 acts.append(('toggle',))
@@ -147,36 +194,52 @@ def config(prop, tier, scn, variant):
         cfg.update(alphabet=alphabet, T=2 if variant == 'toggle2' else 3)
     else:
         raise KeyError(variant)
+    if shard is not None:
+        inner = cfg['alphabet']
+
+        def sharded(st, inner=inner, shard=shard):
+            acts = inner(st)
+            if st.depth % shard[1] != shard[0] and not any(
+                    a[0] in ('resume', 'toggle') for a in st.path):
+                acts = [a for a in acts if a[0] not in ('resume', 'toggle', 'finish', 'sched')]
+            return acts
+        cfg['alphabet'] = sharded
     return cfg
 
 
 SCENARIOS = dict(
-    C01=dict(quick=['gauss', 'two', 'wrap_net', 'half', 'g3_pool_s', 'plateau'],
+    C01=dict(quick=['gauss', 'two', 'wrap_net', 'half', 'g3_pool_s', 'plateau', 'nlb', 'funnel_net',
+                    'ring_net'],
              thorough=['gauss', 'gauss_net', 'two', 'ring_net', 'half', 'plateau', 'wrap',
-                       'wrap_net', 'g3_pool_s', 'two_pool_s', 'b7_update', 'blob_two_obj', 'b1']),
-    C02=dict(quick=['gauss_d', 'half', 'two', 'gauss_s', 'wrap_net'],
-             thorough=['gauss', 'gauss_s', 'gauss_d', 'gauss_net', 'two', 'ring_net', 'half',
-                       'plateau', 'wrap_net', 'g3_pool_s', 'b7_update', 'b1', 'blob_f32_inplace']),
+                       'wrap_net', 'g3_pool_s', 'two_pool_s', 'b7_update', 'blob_two_obj', 'b1',
+                       'funnel_net', 'funnel', 'nlb', 'nlb_ring', 'empty']),
+    C02=dict(quick=['gauss_d', 'half', 'gauss_t', 'wrap_net',
+                    'funnel_net:resume/0/2+resume/1/2+nshell',
+                    'empty:resume/0/2+resume/1/2+nshell'],
+             thorough=['gauss', 'gauss_t', 'gauss_d', 'gauss_net', 'two', 'ring_net', 'half',
+                       'plateau', 'wrap_net', 'g3_pool_s', 'b7_update', 'b1', 'blob_f32_inplace',
+                       'nlb', 'funnel_net', 'empty', 'empty_d']),
     C03=dict(quick=['blob_float', 'blob_int_vec', 'blob_two_obj', 'blob_array_pool',
                     'blob_struct_dictfn', 'blob_f32_inplace', 'blob_float_b1', 'blob_two_b2_vec'],
              thorough=['blob_float', 'blob_int_vec', 'blob_two_obj', 'blob_array_pool',
                        'blob_struct_dictfn', 'blob_f32_inplace', 'blob_float_b1', 'blob_array_b1',
                        'blob_two_b2_vec', 'blob_struct_b1', 'vec_inplace', 'obj_array_vec',
                        'dictfn_vec_net', 'pool_l3', 'gauss', 'wrap_net']),
-    C05=dict(quick=['gauss_s', 'gauss_d', 'wrap_net', 'blob_two_obj', 'gauss_net', 'two'],
+    C05=dict(quick=['gauss_s', 'gauss_d', 'wrap_net', 'blob_two_obj', 'gauss_net', 'two', 'nlb',
+                    'b7_update'],
              thorough=['gauss', 'gauss_s', 'gauss_d', 'gauss_net', 'two', 'ring_net', 'half', 'wrap',
                        'wrap_net', 'g3_pool_s', 'blob_float', 'blob_int_vec', 'blob_two_obj',
                        'blob_array_pool', 'blob_struct_dictfn', 'blob_f32_inplace',
-                       'dictfn_vec_net', 'b7_update']),
-    C10=dict(quick=['gauss_s', 'b7_update', 'half', 'gauss_d'],
+                       'dictfn_vec_net', 'b7_update', 'nlb', 'nlb_ring', 'b1', 'empty_d']),
+    C10=dict(quick=['gauss_s', 'b7_update', 'half', 'gauss_d', 'nlb'],
              thorough=['gauss', 'gauss_s', 'gauss_d', 'b7_update', 'half', 'b1', 'two', 'wrap_net',
                        'blob_int_vec', 'pool_l3']),
     C11=dict(quick=['gauss_s', 'blob_array_pool', 'wrap_net', 'pool_l3'],
              thorough=['gauss', 'gauss_s', 'gauss_net', 'blob_array_pool', 'pool_l3', 'wrap_net',
                        'two', 'nofile', 'blob_two_obj']),
-    C12=dict(quick=['gauss_s', 'gauss_d', 'wrap_net', 'blob_two_obj'],
-             thorough=['gauss', 'gauss_s', 'gauss_d', 'b7_update', 'b1', 'two', 'half', 'wrap_net',
-                       'blob_float', 'blob_two_obj', 'gauss_net']),
+    C12=dict(quick=['gauss_t', 'gauss_d', 'wrap_net', 'blob_two_obj', 'empty_d:nshell'],
+             thorough=['gauss', 'gauss_t', 'gauss_d', 'b7_update', 'b1', 'two', 'half', 'wrap_net',
+                       'blob_float', 'blob_two_obj', 'gauss_net', 'empty', 'empty_d']),
 )
 
 LEVEL = 'model_checking'
@@ -284,7 +347,7 @@ def _mp_job(scn_dict, size, depth):
         serial.run(**A)
         d0, s0 = smc.observation(serial)
         kw = scn.sampler_kwargs()
-        kw['pool'] = size
+        kw['pool'] = (size, None)       # likelihood pool only (an int would also pool the sampler)
         kw['n_dim'] = scn['n_dim']
         par = Sampler(scen.prior_identity, functools.partial(scen.likelihood_array, scn['like'],
                                                              scn['blob']), **kw)
@@ -520,10 +583,15 @@ def run(prop, tier):
     """generic driver: explorations of all (scenario, variant) pairs in parallel, then the
     determinism proof on the default path of each scenario (two fresh processes), then evidence."""
     timer = core.Timer()
-    names = SCENARIOS[prop][tier]
+    entries = SCENARIOS[prop][tier]
+    names = [e.split(':')[0] for e in entries]
     scns0 = scenarios.get(names)
     variants = VARIANTS[prop][tier]
-    pairs = [(s, v) for s in scns0 for v in variants]
+    # an entry 'name:v1+v2' restricts the scenario to the named variants
+    pairs = []
+    for e, s in zip(entries, scns0):
+        vs = e.split(':')[1].split('+') if ':' in e else variants
+        pairs += [(s, v) for v in vs]
     # long jobs first
     results = core.pmap(_any_job, [('explore', prop, tier, dict(s), v) for s, v in pairs])
     scns = [s for s, v in pairs]
